@@ -22,6 +22,7 @@ type FuncResult struct {
 }
 
 func (e *Engine) setFloatMode(fc *FuncContract) {
+	e.ufArith = fc != nil && fc.UFArith
 	old := e.FloatSort
 	if fc != nil && fc.Mode == "fp" {
 		e.FloatSort = fpSortName()
